@@ -57,6 +57,12 @@
 #if !defined DEFUN
 # define DEFUN
 #endif	/* !DEFUN */
+/* read a number, blanks in front of it only when the spec asks for them */
+#define STRTOI_PAD(s, sp, ep, lo, hi)			\
+	((s).pad == DT_SPPAD_SPC			\
+	 ? padstrtoi_lim(sp, ep, lo, hi)		\
+	 : strtoi_lim(sp, ep, lo, hi))
+
 #if !defined DEFVAR
 # define DEFVAR
 #endif	/* !DEFVAR */
@@ -207,10 +213,10 @@ __strpd_card(struct strpd_s *d, const char *sp, struct dt_spec_s s, char **ep)
 	case DT_SPFL_N_YEAR:
 		switch (s.abbr) {
 		case DT_SPMOD_LONG:
-			d->y = padstrtoi_lim(sp, &sp, DT_MIN_YEAR, DT_MAX_YEAR);
+			d->y = STRTOI_PAD(s, sp, &sp, DT_MIN_YEAR, DT_MAX_YEAR);
 			break;
 		case DT_SPMOD_NORM:
-			d->y = padstrtoi_lim(sp, &sp, 0, 99);
+			d->y = STRTOI_PAD(s, sp, &sp, 0, 99);
 			if (UNLIKELY(d->y < 0)) {
 				break;
 			}
@@ -264,12 +270,13 @@ __strpd_card(struct strpd_s *d, const char *sp, struct dt_spec_s s, char **ep)
 		res = 0 - (d->y < 0);
 		break;
 	case DT_SPFL_N_MON:
-		d->m = padstrtoi_lim(sp, &sp, 0, GREG_MONTHS_P_YEAR);
+		d->m = STRTOI_PAD(s, sp, &sp, 0, GREG_MONTHS_P_YEAR);
 		res = 0 - (d->m < 0);
 		break;
 	case DT_SPFL_N_DCNT_MON:
 		/* ymd mode? */
 		if (LIKELY(!s.bizda)) {
+			/* blanks in front of the day are always fine */
 			d->d = padstrtoi_lim(sp, &sp, 0, 31);
 			res = 0 - (d->d < 0);
 		} else {
@@ -279,13 +286,13 @@ __strpd_card(struct strpd_s *d, const char *sp, struct dt_spec_s s, char **ep)
 		break;
 	case DT_SPFL_N_DCNT_WEEK:
 		/* ymcw mode? */
-		d->w = padstrtoi_lim(sp, &sp, 0, GREG_DAYS_P_WEEK);
+		d->w = STRTOI_PAD(s, sp, &sp, 0, GREG_DAYS_P_WEEK);
 		/* fix up d->w right away */
 		res = 0 - (d->w < 0);
 		break;
 	case DT_SPFL_N_WCNT_MON:
 		/* ymcw mode? */
-		d->c = padstrtoi_lim(sp, &sp, 0, 5);
+		d->c = STRTOI_PAD(s, sp, &sp, 0, 5);
 		res = 0 - (d->c < 0);
 		break;
 	case DT_SPFL_S_WDAY:
@@ -384,14 +391,14 @@ __strpd_card(struct strpd_s *d, const char *sp, struct dt_spec_s s, char **ep)
 		break;
 	case DT_SPFL_N_DCNT_YEAR:
 		/* was %D and %j, cannot be used at the moment */
-		if ((d->d = padstrtoi_lim(sp, &sp, 1, 366)) >= 0) {
+		if ((d->d = STRTOI_PAD(s, sp, &sp, 1, 366)) >= 0) {
 			res = 0;
 			d->flags.d_dcnt_p = 1;
 		}
 		break;
 	case DT_SPFL_N_WCNT_YEAR:
 		/* was %C, cannot be used at the moment */
-		d->c = padstrtoi_lim(sp, &sp, 0, 53);
+		d->c = STRTOI_PAD(s, sp, &sp, 0, 53);
 		d->flags.wk_cnt = s.wk_cnt;
 		/* let everyone know d->c has a week-count in there */
 		d->flags.c_wcnt_p = 1;
